@@ -138,3 +138,26 @@ def error_kinds_tested(fn, source_pred):
             for var in sw["edges"]:
                 out.append((var, sw["bb"]))
     return out
+
+
+def named_input(x, name):
+    """x is the function's input of that name: the parameter, a variable of that name, or the field of that name of a parameter (a
+    bundle of arguments passed as one struct)."""
+    from . import dataflow as df
+    if not isinstance(x, tuple) or not x:
+        return False
+    if x[0] in ("param", "local") and len(x) > 2 and x[2] == name:
+        return True
+    return x[0] == "field" and x[2] == name and df.mentions(x[1], lambda y: isinstance(y, tuple) and y and y[0] == "param")
+
+
+def arg_by_name(prog, t, name, default_index):
+    """The operand a call passes for the callee's parameter called `name` (parameters get reordered); the operand at default_index
+    when the callee is not a local function or has no parameter of that name."""
+    from .facts import callee_of
+    callee = prog.fns.get(callee_of(t).get("rpath") or "")
+    if callee is not None:
+        for i in range(1, callee.arg_count + 1):
+            if callee.local_name(i) == name and i - 1 < len(t["args"]):
+                return t["args"][i - 1]
+    return t["args"][default_index] if default_index < len(t["args"]) else None
